@@ -12,7 +12,9 @@ USES = ['fd_write', 'fd_pwrite', 'fd_read', 'fd_pread', 'fd_seek', 'fd_tell', 'f
         'fd_prestat_get', 'fd_prestat_dir_name', 'fd_filestat_get', 'path_open', 'path_filestat_get', 'path_rename_old',
         'path_rename_new', 'path_unlink_file', 'path_remove_directory', 'path_create_directory', 'path_symlink', 'path_readlink',
         # the same path calls with an ABSOLUTE guest path: the path is used as it is, the descriptor must be valid all the same
-        'path_open_abs', 'path_filestat_get_abs', 'path_create_directory_abs', 'path_readlink_abs', 'path_unlink_file_abs']
+        'path_open_abs', 'path_filestat_get_abs', 'path_create_directory_abs', 'path_readlink_abs', 'path_unlink_file_abs',
+        # transfers with an empty iovec array
+        'fd_write0', 'fd_pwrite0', 'fd_read0', 'fd_pread0']
 STUBS = ['fd_advise', 'fd_allocate', 'fd_fdstat_set_flags', 'fd_filestat_set_size', 'fd_filestat_set_times', 'path_filestat_set_times', 'path_link']
 NSNAME = {0: 'wasi_snapshot_preview1', 1: 'wasi_unstable'}
 
@@ -24,10 +26,15 @@ class Table:
         self.failed_open = False      # a path_open that failed after path resolution happened (it must leave no trace in the table)
 
     def live(self, x):
-        return x in self.t and self.t[x][1]
+        return x in self.t and self.t[x][1] is True
+
+    def limbo(self, x):
+        # fd_close was called while the host's close() failed: the specification does not say whether the number is still valid afterwards,
+        # so nothing is demanded of later calls on it - except that they neither crash nor touch freed memory (AddressSanitizer)
+        return x in self.t and self.t[x][1] == 'limbo'
 
     def cls(self, x):
-        return 'unissued' if x not in self.t else ('live-' + self.t[x][0] if self.t[x][1] else 'closed')
+        return 'unissued' if x not in self.t else 'close-failed' if self.limbo(x) else ('live-' + self.t[x][0] if self.t[x][1] else 'closed')
 
     def key(self):
         return (self.failed_open,) + tuple(sorted((n, v[0], v[1], v[2]) for n, v in self.t.items()))
@@ -50,11 +57,15 @@ class Table:
             return bad
         if f[0] in ('of', 'od'):
             call, x = 'path_open', 3
-        elif f[0] == 'c':
+        elif f[0] in ('c', 'cf'):
             call, x = 'fd_close', int(f[1])
         else:
             call, x = f[1], int(f[2])
         # path_rename takes two directory handles: the second one is the pre-open (3)
+        if any(self.limbo(y) for y in ([x, 3] if call.startswith('path_rename') else [x])):
+            if errno == 0 and 'fd' in d:
+                self.issue(int(d['fd']), 'file', [])
+            return bad
         dead = [y for y in ([x, 3] if call.startswith('path_rename') else [x]) if not self.live(y)]
         xc = self.cls(dead[0] if dead else x)
         if dead:
@@ -70,6 +81,8 @@ class Table:
                 bad += [(call, xc, 'alias', t) for _, t in b2]
             elif f[0] in ('of', 'od'):
                 bad.append((call, xc, 'errno=%d' % errno, 'path_open below the live pre-open failed with %d' % errno))
+        elif f[0] == 'cf':
+            self.t[x][1] = 'limbo'
         elif call == 'fd_close':
             if errno != 0:
                 bad.append((call, xc, 'errno=%d' % errno, 'fd_close of live descriptor %d returned %d' % (x, errno)))
@@ -97,6 +110,7 @@ class Table:
             if not self.failed_open:
                 ops.append('om,%d' % ns)
             ops += ['c,%d,%d' % (x, ns) for x in xs]
+            ops += ['cf,%d,%d' % (x, ns) for x in issued + [max(self.t) + 1]]      # fd_close while the host's close() fails
             for c in uses:
                 for x in xs:
                     if c == 'fd_readdir' and x in (0, 1, 2) and self.live(x):
@@ -113,6 +127,7 @@ def describe(line):
         elif f[0] == 'of': out.append('%s.path_open(3,"f",CREAT,RW)' % NSNAME[int(f[1])])
         elif f[0] == 'od': out.append('%s.path_open(3,"sub",DIRECTORY)' % NSNAME[int(f[1])])
         elif f[0] == 'c': out.append('%s.fd_close(%s)' % (NSNAME[int(f[2])], f[1]))
+        elif f[0] == 'cf': out.append('%s.fd_close(%s) [host close() fails with EIO]' % (NSNAME[int(f[2])], f[1]))
         else: out.append('%s.%s(%s)' % (NSNAME[int(f[3])], f[1], f[2]))
     return ' ; '.join(out)
 
@@ -169,7 +184,7 @@ def judge(ex, line, r, report=True):
             # the crash must be in the last step (prefixes were explored before)
             print('MACHINERY-ERROR: history %r crashed at step %d, but its prefix passed earlier' % (line, k)); sys.exit(2)
         f = ops[k].split(',')
-        call, x = ('path_open', 3) if f[0] in ('of', 'od') else ('fd_close', int(f[1])) if f[0] == 'c' else (f[1], int(f[2]))
+        call, x = ('path_open', 3) if f[0] in ('of', 'od') else ('fd_close', int(f[1])) if f[0] in ('c', 'cf') else (f[1], int(f[2]))
         if call.startswith('path_rename') and tbl.live(x):
             x = 3
         if report:
